@@ -29,3 +29,24 @@ package tabula
 //@ func (*Extractor) validateFormat results (err)
 //@   property C20
 //@   ensures refused_on_mismatch: detected != format.Unknown && detected != e.format ==> err
+
+// ---- C10: deriving a configured extractor never changes (or shares mutable state with) the one it came from ----
+//@ func (ExtractOptions) clone
+//@   property C10
+//@   flags frameonly, noalias
+//@   fresh pages
+
+//@ func (*Extractor) clone
+//@   property C10
+//@   flags frameonly, noalias
+//@   fresh warnings, pages
+
+//@ func (*Extractor) Pages
+//@   property C10
+//@   flags frameonly, noalias
+//@   fresh pages
+
+//@ func (*Extractor) PageRange
+//@   property C10
+//@   flags frameonly, noalias
+//@   fresh pages
